@@ -330,6 +330,81 @@ def s_cfg(p):
         " ".join(cp), cpg, " ".join(al), " ".join(flt))
 
 
+# ------------------------------------------------------------------------------------------------
+# QueryParser.tag(): the taggers as the model sees them (lean/WM/Model/ParserTag.lean)
+
+import re as _re  # noqa: E402
+
+_OP_SHAPES = [
+    # (regular expression over the tagger's pattern text, atStart, afterParen)
+    (_re.compile(r"^\(\?<=\\s\)([A-Za-z]+)\(\?=\\s\)$"), False, False),
+    (_re.compile(r"^\(\^\|\(\?<=\(\\s\|\[\(\)\]\)\)\)([A-Za-z]+)\(\?=\\s\)$"), True, True),
+    (_re.compile(r"^\(\^\|\(\?<=\\s\)\)([A-Za-z]+)\(\?=\\s\)$"), True, False),
+]
+
+
+def s_node_opaque(n):
+    """s_node, with node classes the model has no constructor for as opaque text nodes"""
+    try:
+        return s_node(n)
+    except Unsupported:
+        return "(t re %s none 1)" % s_str("\x00" + n.__class__.__name__)
+
+
+class TaggerRaised(Exception):
+    pass
+
+
+def s_tagger(p, tg, text):
+    """One tagger as the model's `Tagger`: the fixed-string taggers structurally (recognised by
+    class and pattern text; anything else is semantic), every other tagger as the table of its
+    answers at every position."""
+    from whoosh.qparser import taggers as T
+    pat = getattr(getattr(tg, "expr", None), "pattern", None)
+    flags = getattr(getattr(tg, "expr", None), "flags", 0)
+    plain = pat is not None and not (flags & (_re.IGNORECASE | _re.MULTILINE | _re.VERBOSE | _re.DOTALL))
+    if plain and type(tg) is T.FnTagger and type(tg).match is T.RegexTagger.match:
+        if pat == "[(]" and tg.fn is plugins.GroupPlugin.OpenBracket:
+            return "opn"
+        if pat == "[)]" and tg.fn is plugins.GroupPlugin.CloseBracket:
+            return "cls"
+    if (plain and type(tg) is plugins.WhitespacePlugin and pat == r"\s+" and tg.nodetype is syntax.Whitespace
+            and type(tg).match is T.RegexTagger.match):
+        return "ws"
+    if plain and type(tg) is plugins.OperatorsPlugin.OpTagger and type(tg).match is T.RegexTagger.match:
+        for rx, at_start, after_paren in _OP_SHAPES:
+            m = rx.match(pat)
+            if m:
+                return "(op %s %d %d %s %s %d)" % (s_str(m.group(1)), at_start, after_paren, optype_of_class(tg.optype),
+                                                    gk_of_class(tg.grouptype), bool(tg.leftassoc))
+    hits = []
+    for pos in range(len(text)):
+        try:
+            node = tg.match(p, text, pos)
+        except Exception:
+            raise TaggerRaised(type(tg).__name__)
+        if node is not None:
+            if not isinstance(node.endchar, int):
+                raise TaggerRaised("endchar of %s" % type(node).__name__)
+            hits.append("(%d %s %d %d)" % (pos, s_node_opaque(node), node.endchar, bool(node)))
+    return "(ext (%s))" % " ".join(hits)
+
+
+def tag_request(p, text):
+    """(driver request, kinds of taggers) for the model of tag() on `text`"""
+    tgs = [s_tagger(p, tg, text) for tg in p.taggers()]
+    chars = " ".join("(%d %d)" % (ord(c), c.isspace()) for c in text)
+    return "c16 tag (%s) (%s)" % (chars, " ".join(tgs)), [t if t[0] != "(" else t[1:4].strip() for t in tgs]
+
+
+def real_tagged(p, text):
+    try:
+        nodes = list(p.tag(text))
+    except Exception as e:
+        return "err " + err_name(e)
+    return "ok (" + " ".join("(%s %s %s)" % (s_node_opaque(n), n.startchar, n.endchar) for n in nodes) + ")"
+
+
 COMPOUND_Q = [(query.And, "and"), (query.Or, "or"), (query.DisjunctionMax, "dismax"),
               (query.Ordered, "ordered"), (query.Sequence, "seq")]
 BINARY_Q = [(query.AndNot, "andnot"), (query.AndMaybe, "andmaybe"), (query.Require, "require")]
